@@ -1,6 +1,7 @@
 SPECIFICATION SpecGC
 CONSTANTS
   NKeys = 1
+  ReW = {}
   Vals <- MCVals1
   Wt <- MCWt
   Depth = 7
